@@ -62,7 +62,9 @@ class Ctx:
 
     def prove(self, name, claim, hyps=(), family=None, params=None, abs_cons=True, group=None, desc=None, congruence=True):
         fs = list(hyps)
-        if abs_cons:
+        if abs_cons == "cone":
+            fs += ABS.cons_for(list(hyps) + [claim], congruence)
+        elif abs_cons:
             fs += ABS.all_cons(congruence)
         fs.append(z3.Not(claim))
         ob = Ob(name, "prove", self._text(fs), family, params, group, desc)
@@ -71,7 +73,9 @@ class Ctx:
 
     def expect_sat(self, name, formulas, kind="witness", abs_cons=True, group=None, desc=None, congruence=True):
         fs = list(formulas)
-        if abs_cons:
+        if abs_cons == "cone":
+            fs += ABS.cons_for(list(formulas), congruence)
+        elif abs_cons:
             fs += ABS.all_cons(congruence)
         ob = Ob(name, kind, self._text(fs), None, None, group, desc)
         self.obs.append(ob)
